@@ -351,7 +351,8 @@ class JsonSchemaGenerator:
             for key, deps in dependent_required.items()
         }
         dependent_required = {key: deps for key, deps in dependent_required.items() if deps}
-        if dependent_required:
+        if dependent_required and not self.output:
+            # dependencies constrain the input; in the output a defaulted field appears without them
             data.update(dependentRequired=dependent_required)
         addition = options.addition
         if addition is not None:
